@@ -166,6 +166,9 @@ def cases(tier, rng):
     for (lvl, c) in rs_py.qr_zero_contents(rng, per=1 if quick else 6):
         lines.append("qr %d 3 %s" % (lvl, hx(c)))
         lines.append("qr %d 0 %s" % (lvl, hx(c)))
+    # normalisation probes (BOM, NUL, blanks ...), UTF-8 oddities, magic sequences, big-valued digit runs (lib/gaps.py)
+    import gaps
+    lines += gaps.family(rng, tier, ("qr",))
     for (v, l) in (rows[:6] if quick else rows):
         n = _raw(v) // 8
         lines.append("qrrender %d %d %s" % (v, l, hx(bytes(rng.randrange(256) for _ in range(n)))))
